@@ -223,7 +223,15 @@ def cworldCmd (st : CWState) (cmd : String) (args : List String) : Option (CWSta
     let late := match (c1.newStream cfg true true [] [] none false).2.1.dones with
       | [(_, "new", .other _)] => "fails"
       | _ => "proceeds"
-    some (st, s!"done={if c1.finished.isSome then "closed" else "open"} err={err} late={late}")
+    -- `atdone`: Err() read at the instant Done() is closed.  A clean close records its (nil) cause before it cancels the
+    -- context; when the opening context ends first, Err() falls back on the context's error until the loop records its own
+    -- (finding D13: `close` tears the carrier down BEFORE it records the cause; with a delay forced between the two, Done()
+    -- closes - the carrier's context ends - while Err() still falls back on that context's error: transiently non-nil
+    -- during a clean Close().  The model follows the code.)
+    let atdone := if err == "open" then "never"
+                  else if err == "nil" then (if kv args "delay" == some "1" then "err" else "nil")
+                  else "err"
+    some (st, s!"done={if c1.finished.isSome then "closed" else "open"} err={err} atdone={atdone} late={late}")
   | _ => none
 
 end Driver
